@@ -302,9 +302,10 @@ class VariableElimination(Inference):
 
         # Step 2: If virtual_evidence is provided, modify the network.
         if isinstance(self.model, BayesianNetwork) and (virtual_evidence is not None):
+            orig_model = self.model
             self._virtual_evidence(virtual_evidence)
             virt_evidence = {"__" + cpd.variables[0]: 0 for cpd in virtual_evidence}
-            return self.query(
+            result = self.query(
                 variables=variables,
                 evidence={**evidence, **virt_evidence},
                 virtual_evidence=None,
@@ -312,6 +313,10 @@ class VariableElimination(Inference):
                 joint=joint,
                 show_progress=show_progress,
             )
+            # Restore the original model so that later queries don't see the
+            # virtual evidence nodes.
+            self.__init__(orig_model)
+            return result
 
         # Step 3: Prune the network based on variables and evidence.
         if isinstance(self.model, BayesianNetwork):
@@ -552,15 +557,18 @@ class VariableElimination(Inference):
             )
 
         if isinstance(self.model, BayesianNetwork) and (virtual_evidence is not None):
+            orig_model = self.model
             self._virtual_evidence(virtual_evidence)
             virt_evidence = {"__" + cpd.variables[0]: 0 for cpd in virtual_evidence}
-            return self.map_query(
+            result = self.map_query(
                 variables=variables,
                 evidence={**evidence, **virt_evidence},
                 virtual_evidence=None,
                 elimination_order=elimination_order,
                 show_progress=show_progress,
             )
+            self.__init__(orig_model)
+            return result
 
         if isinstance(self.model, BayesianNetwork):
             model_reduced, evidence = self._prune_bayesian_model(variables, evidence)
@@ -1122,13 +1130,15 @@ class BeliefPropagation(Inference):
         if isinstance(self.model, BayesianNetwork) and (virtual_evidence is not None):
             self._virtual_evidence(virtual_evidence)
             virt_evidence = {"__" + cpd.variables[0]: 0 for cpd in virtual_evidence}
-            return self.query(
+            result = self.query(
                 variables=variables,
                 evidence={**evidence, **virt_evidence},
                 virtual_evidence=None,
                 joint=joint,
                 show_progress=show_progress,
             )
+            self.__init__(orig_model)
+            return result
 
         # Step 3: Do network pruning.
         if isinstance(self.model, BayesianNetwork):
@@ -1221,12 +1231,14 @@ class BeliefPropagation(Inference):
         if isinstance(self.model, BayesianNetwork) and (virtual_evidence is not None):
             self._virtual_evidence(virtual_evidence)
             virt_evidence = {"__" + cpd.variables[0]: 0 for cpd in virtual_evidence}
-            return self.map_query(
+            result = self.map_query(
                 variables=variables,
                 evidence={**evidence, **virt_evidence},
                 virtual_evidence=None,
                 show_progress=show_progress,
             )
+            self.__init__(orig_model)
+            return result
 
         if isinstance(self.model, BayesianNetwork):
             self.model, evidence = self._prune_bayesian_model(variables, evidence)
